@@ -422,3 +422,90 @@ def parse_time_transform(kws):
                               a.value in STD_ACTIONS):
         return f"action={ast.unparse(a)}"
     return None
+
+
+# ------------------------------------------------- linear integer forms
+def linear(t: T, depth: int = 0):
+    """t as an integer-linear form {atom term or 1: coefficient}; atoms are
+    the maximal non-arithmetic sub-terms (len(x), loop indices, ...). None
+    if t is not linear (products of atoms, divisions, ...)."""
+    from fractions import Fraction
+    while t.op == "named":
+        t = t.args[1]
+    if tm.is_const(t) and isinstance(t.args[1], int) and \
+            not isinstance(t.args[1], bool):
+        return {1: t.args[1]} if t.args[1] else {}
+    if t.op == "binop" and t.args[0] in ("Add", "Sub") and depth < 20:
+        a, b = linear(t.args[1], depth + 1), linear(t.args[2], depth + 1)
+        if a is None or b is None:
+            return None
+        out = dict(a)
+        sgn = 1 if t.args[0] == "Add" else -1
+        for k, v in b.items():
+            out[k] = out.get(k, 0) + sgn * v
+            if out[k] == 0:
+                del out[k]
+        return out
+    if t.op == "binop" and t.args[0] == "Mult" and depth < 20:
+        a, b = linear(t.args[1], depth + 1), linear(t.args[2], depth + 1)
+        if a is None or b is None:
+            return None
+        for c, o in ((a, b), (b, a)):
+            if set(c) <= {1}:
+                k = c.get(1, 0)
+                return {x: v * k for x, v in o.items() if v * k}
+        return None
+    if t.op == "unop" and t.args[0] == "USub":
+        a = linear(t.args[1], depth + 1)
+        return None if a is None else {k: -v for k, v in a.items()}
+    return {t: 1}
+
+
+def linear_cmp(atom: T, positive: bool = True):
+    """integer comparison  l REL r  as a canonical `form <= 0` / `form == 0`
+    / `form != 0`: returns (kind, frozenset(form items)) with kind in
+    {"le", "eq", "ne"}; strict comparisons use integrality (a < b is
+    a + 1 <= b). None if not linear."""
+    if atom.op == "not":
+        return linear_cmp(atom.args[0], not positive)
+    if atom.op != "cmp":
+        return None
+    op, l, r = atom.args
+    neg = {"Lt": "GtE", "GtE": "Lt", "Gt": "LtE", "LtE": "Gt", "Eq": "NotEq",
+           "NotEq": "Eq"}
+    if op not in neg:
+        return None
+    if not positive:
+        op = neg[op]
+    a, b = linear(l), linear(r)
+    if a is None or b is None:
+        return None
+
+    def sub(x, y, c=0):
+        out = dict(x)
+        for k, v in y.items():
+            out[k] = out.get(k, 0) - v
+        out[1] = out.get(1, 0) + c
+        return frozenset((k, v) for k, v in out.items() if v)
+    if op == "LtE":
+        return "le", sub(a, b)
+    if op == "Lt":
+        return "le", sub(a, b, 1)
+    if op == "GtE":
+        return "le", sub(b, a)
+    if op == "Gt":
+        return "le", sub(b, a, 1)
+    if op == "Eq":
+        f1, f2 = sub(a, b), sub(b, a)
+        return "eq", min(f1, f2, key=lambda f: sorted(map(str, f)))
+    f1, f2 = sub(a, b), sub(b, a)
+    return "ne", min(f1, f2, key=lambda f: sorted(map(str, f)))
+
+
+def lin_form(**coeffs):
+    raise NotImplementedError
+
+
+def same_linear(a: T, b_form: dict) -> bool:
+    la = linear(a)
+    return la is not None and la == {k: v for k, v in b_form.items() if v}
